@@ -50,3 +50,70 @@ Example c02_example :
   /\ existsb (fun e => match e with EHand 1 0 _ _ _ 0 => true | _ => false end) (o_events (last (trace cfg ops) (mkObs [] [] []))) = true
   /\ mon_C02 cfg ops (trace cfg ops) = true.
 Proof. vm_compute. auto. Qed.
+
+(* ------------------------------------------------------------------------------------------------
+   M-CONN: the REAL connection type behind the pool (client/conn/connection.rs HttpConnection) against
+   the contract the pool model assumes of a PoolableConnection (anchors "only connections that report
+   can_share are cloned ... HttpConnection::reuse", "returns to the pool only after it reports ready
+   again").  Model conn/Model.v (hyper's SendRequest readiness is oracle O1, transcribed as observed and
+   compared on every run of this check by harness/src/bin/conn.rs), contract monitor conn/Spec.v, proofs
+   conn/Proofs.v, link to the pool model's flags conn/PoolLink.v.  Quantification: both protocols, EVERY
+   sequence of operations. *)
+From HD Require conn.Model conn.Spec conn.Proofs conn.PoolLink.
+
+Theorem c02_conn_monitor : forall (p : http.Model.proto) ops,
+  conn.Spec.mon_conn p ops (conn.Model.hc_trace p ops) = true.
+Proof. exact conn.Proofs.mon_conn_holds. Qed.
+Print Assumptions c02_conn_monitor.
+
+(* can_share = reuse().is_some() = "the connection is HTTP/2", constant along every history; version()
+   is the protocol's *)
+Theorem c02_conn_share_constant : forall (p : http.Model.proto) ops,
+  let o := conn.Model.hc_obs (conn.Model.hc_run p ops) in
+  conn.Model.o_share o = conn.Model.is_h2 p /\ conn.Model.o_reuse o = conn.Model.is_h2 p
+  /\ conn.Model.o_ver o = http.Model.wire_version p.
+Proof. exact conn.Proofs.share_constant. Qed.
+Print Assumptions c02_conn_share_constant.
+
+(* a handle obtained from reuse() observes the same open / closed / ready state as the original *)
+Theorem c02_conn_clone_same : forall s, conn.Model.is_h2 (conn.Model.h_proto s) = true ->
+  conn.Model.o_clone (conn.Model.hc_obs s)
+  = Some (conn.Model.o_open (conn.Model.hc_obs s), conn.Model.o_share (conn.Model.hc_obs s), conn.Model.o_rdy (conn.Model.hc_obs s)).
+Proof. exact conn.Proofs.clone_same. Qed.
+Print Assumptions c02_conn_clone_same.
+
+(* the HTTP/1 connection that has just accepted a request, and any HTTP/1 connection with an exchange in
+   flight, reports is_open = false and poll_ready = Pending: it is not "ready again" *)
+Theorem c02_conn_h1_busy :
+  (forall s v, conn.Model.h_proto s = http.Model.PH1 -> conn.Model.hc_open s = true ->
+     let s' := conn.Model.hc_step s (conn.Model.HSend v) in
+     conn.Model.hc_open s' = false /\ conn.Model.hc_rdy s' = conn.Model.PPending)
+  /\ (forall s, conn.Model.h_proto s = http.Model.PH1 -> conn.Model.hc_dead s = false -> conn.Model.inflight s <> 0 ->
+        conn.Model.hc_open s = false /\ conn.Model.hc_rdy s = conn.Model.PPending).
+Proof. exact (conj conn.Proofs.h1_send_makes_busy conn.Proofs.h1_busy). Qed.
+Print Assumptions c02_conn_h1_busy.
+
+(* the real connection never leaves the pool model's environment alphabet: every step is a (possibly
+   empty) sequence of ConnReady (c_set_ready true) / ConnClose (c_set_open false) / the hand-out's own
+   c_set_ready false on the flags (share := HTTP/2, open := not closed, ready := no exchange in flight);
+   it becomes busy only by the holder's own send on an open HTTP/1 connection; and a fresh connection has
+   the flags the pool model creates *)
+Theorem c02_conn_pool_moves :
+  (forall s o,
+     fold_left conn.PoolLink.apply_env (conn.PoolLink.link_ops s o) (conn.PoolLink.abs s)
+       = conn.PoolLink.abs (conn.Model.hc_step s o)
+     /\ (In conn.PoolLink.EUse (conn.PoolLink.link_ops s o) ->
+           conn.Spec.is_send o = true /\ conn.Model.h_proto s = http.Model.PH1 /\ conn.Model.hc_open s = true))
+  /\ (forall p ops,
+        fold_left conn.PoolLink.apply_env (conn.PoolLink.link_history (conn.Model.hc_init p) ops)
+                  (conn.PoolLink.abs (conn.Model.hc_init p))
+        = conn.PoolLink.abs (conn.Model.hc_run p ops))
+  /\ (forall p, conn.PoolLink.abs (conn.Model.hc_init p) = mkConn 0 (conn.Model.is_h2 p) true true 1 0 []).
+Proof. exact (conj conn.PoolLink.link_step (conj conn.PoolLink.link_run conn.PoolLink.link_fresh)). Qed.
+Print Assumptions c02_conn_pool_moves.
+
+(* send_request overwrites the version field: the server is given the connection's version *)
+Theorem c02_conn_version : forall (p : http.Model.proto) ops v,
+  conn.Model.h_seen (conn.Model.hc_run p ops) = Some v -> v = http.Model.wire_version p.
+Proof. exact conn.Proofs.seen_version. Qed.
+Print Assumptions c02_conn_version.
